@@ -7,14 +7,24 @@ import Frp.Model.Str
     server/control.go   ControlManager.Add/Del/GetByID, NewControl, handlePing, handleNewProxy (name table only),
                         Control.RegisterWorkConn (bounded pool), worker (session end)
     pkg/auth/token.go   VerifyLogin / VerifyPing / VerifyNewWorkConn
-    pkg/auth/oidc.go    OidcAuthConsumer (subjectsFromLogin)
+    pkg/auth/oidc.go    NewTokenVerifier (the oidc.Config it builds), OidcAuthConsumer (subjectsFromLogin)
+    go-oidc/v3 verify.go IDTokenVerifier.Verify: the claim-level decision (issuer, audience, expiry / nbf);
+                        parsing and the signature check are abstract
     pkg/auth/pass.go    AlwaysPassVerifier
     pkg/util/util/util.go GetAuthKey  (abstract `Prim.H`)
+    pkg/ssh/gateway.go  NewGateway (NoClientAuth, PublicKeyCallback, loadAuthorizedKeysFromFile)
+    pkg/ssh/server.go   TunnelServer.Run (virtual client: ClientSpec.AlwaysAuthPass, user, proxy, work connection)
+    pkg/virtual/client.go  pipeConnector (every connection of the virtual client goes to the internal listener)
 
   Abstract primitives (nothing is assumed about them):
     `Prim.H token ts`      = util.GetAuthKey(token, ts) = hex(md5(token ++ decimal(ts)))   [no separator
                              between token and timestamp; no freshness check on ts anywhere]
-    `Prim.oidcVerify key`  = go-oidc `Verify(ctx, key)`: `none` = error, `some sub` = token.Subject
+    `Prim.jwtClaims key`   = go-oidc `parseJWT` + `json.Unmarshal` of the payload: `none` = malformed
+    `Prim.jwtSigOk key`    = `jose.ParseSigned(key, provider algs)` + `RemoteKeySet.VerifySignature`: the token is
+                             signed, with a supported algorithm, by a key the provider's JWKS publishes
+    `Prim.now`             = `time.Now()` (same unit as the `exp` / `nbf` claims; the 5 min nbf leeway is `300`)
+    `SshAuth.pubkey k proved`: `proved` = the ssh client signed the session with the private key of `k`
+                             (golang.org/x/crypto/ssh public-key authentication)
   Plugins (`pluginManager.Login/NewWorkConn/Ping`) are arbitrary functions `msg → Option msg`
   (`none` = rejected / error); C15 is about the chain itself.
 
@@ -33,6 +43,17 @@ abbrev ConnId := Nat
 inductive Method | token | oidc
   deriving DecidableEq, Repr
 
+/-- `cfg.Auth.OIDC` as `auth.NewTokenVerifier` turns it into an `oidc.Config`:
+    `ClientID: cfg.Audience, SkipClientIDCheck: cfg.Audience == "", SkipExpiryCheck, SkipIssuerCheck`;
+    `issuer` = the issuer of the discovered provider (`oidc.NewProvider(ctx, cfg.Issuer)` insists that the
+    discovery document names exactly `cfg.Issuer`) -/
+structure OidcCfg where
+  issuer     : Str := []
+  audience   : Str := []
+  skipExpiry : Bool := false
+  skipIssuer : Bool := false
+  deriving DecidableEq, Repr
+
 /-- `cfg.Auth` + `cfg.Transport.MaxPoolCount` -/
 structure Cfg where
   method  : Method
@@ -40,11 +61,23 @@ structure Cfg where
   wc      : Bool        -- slices.Contains(additionalScopes, NewWorkConns)
   token   : Str
   maxPool : Nat
+  oidc    : OidcCfg := {}
+  deriving DecidableEq, Repr
+
+/-- the claims of an ID token go-oidc looks at (`idToken` in verify.go); a missing `exp` is the zero time -/
+structure Claims where
+  iss : Str
+  aud : List Str            -- `audience`: a JSON string or array of strings
+  sub : Subject
+  exp : Int
+  nbf : Option Int
   deriving DecidableEq, Repr
 
 structure Prim where
   H : Str → Int → Key
-  oidcVerify : Key → Option Subject
+  jwtClaims : Key → Option Claims
+  jwtSigOk : Key → Bool
+  now : Int
 
 /-- which verifier object a session holds (`Control.authVerifier`) -/
 inductive VKind | cfg | alwaysPass
@@ -103,6 +136,39 @@ def allProxies (srv : Srv) : List Str := srv.sessions.flatMap (·.proxies)
 def updSession (srv : Srv) (rid : RunId) (f : Session → Session) : Srv :=
   { srv with sessions := srv.sessions.map (fun s => if s.runId = rid then f s else s) }
 
+/-! ### go-oidc `IDTokenVerifier.Verify` with the configuration `NewTokenVerifier` builds -/
+
+/-- "accounts.google.com" (`issuerGoogleAccountsNoScheme`) -/
+def googleIssNoScheme : Str := [97, 99, 99, 111, 117, 110, 116, 115, 46, 103, 111, 111, 103, 108, 101, 46, 99, 111, 109]
+/-- "https://accounts.google.com" (`issuerGoogleAccounts`) -/
+def googleIss : Str := [104, 116, 116, 112, 115, 58, 47, 47] ++ googleIssNoScheme
+/-- `leeway := 5 * time.Minute` for the nbf claim -/
+def nbfLeeway : Int := 300
+
+/-- `!v.config.SkipIssuerCheck && t.Issuer != v.issuer` ⇒ error, except Google's scheme-less issuer -/
+def issOk (oc : OidcCfg) (c : Claims) : Bool :=
+  oc.skipIssuer || decide (c.iss = oc.issuer) ||
+    (decide (oc.issuer = googleIss) && decide (c.iss = googleIssNoScheme))
+
+/-- `SkipClientIDCheck = (Audience == "")`; otherwise `contains(t.Audience, ClientID)` -/
+def audOk (oc : OidcCfg) (c : Claims) : Bool :=
+  decide (oc.audience = []) || decide (oc.audience ∈ c.aud)
+
+/-- `!SkipExpiryCheck`: `t.Expiry.Before(now)` ⇒ expired; `nbf` present and `now + 5min` before it ⇒ error -/
+def timeOk (oc : OidcCfg) (now : Int) (c : Claims) : Bool :=
+  oc.skipExpiry ||
+    (!decide (c.exp < now) &&
+      match c.nbf with
+      | none => true
+      | some n => !decide (now + nbfLeeway < n))
+
+/-- `verifier.Verify(ctx, key)`: `none` = error, `some sub` = `token.Subject` -/
+def oidcVerify (pr : Prim) (oc : OidcCfg) (key : Key) : Option Subject :=
+  match pr.jwtClaims key with
+  | none => none
+  | some c =>
+    if issOk oc c && audOk oc c && timeOk oc pr.now c && pr.jwtSigOk key then some c.sub else none
+
 /-! ### verifiers -/
 
 /-- `VerifyLogin`: `none` = error, `some subjects'` = accepted (OIDC appends the subject) -/
@@ -114,13 +180,13 @@ def verifyLogin (pr : Prim) (cfg : Cfg) (subjects : List Subject) (vk : VKind) (
     match cfg.method with
     | .token => if pr.H cfg.token m.ts = m.key then some subjects else none
     | .oidc =>
-      match pr.oidcVerify m.key with
+      match oidcVerify pr cfg.oidc m.key with
       | none => none
       | some sub => some (if sub ∈ subjects then subjects else subjects ++ [sub])
 
 /-- `verifyPostLoginToken` -/
-def oidcPost (pr : Prim) (subjects : List Subject) (key : Key) : Bool :=
-  match pr.oidcVerify key with
+def oidcPost (pr : Prim) (oc : OidcCfg) (subjects : List Subject) (key : Key) : Bool :=
+  match oidcVerify pr oc key with
   | none => false
   | some sub => decide (sub ∈ subjects)
 
@@ -128,7 +194,7 @@ def oidcPost (pr : Prim) (subjects : List Subject) (key : Key) : Bool :=
 def keyOk (pr : Prim) (cfg : Cfg) (subjects : List Subject) (ts : Int) (key : Key) : Bool :=
   match cfg.method with
   | .token => decide (pr.H cfg.token ts = key)
-  | .oidc => oidcPost pr subjects key
+  | .oidc => oidcPost pr cfg.oidc subjects key
 
 /-- `VerifyPing` -/
 def verifyPing (pr : Prim) (cfg : Cfg) (subjects : List Subject) (vk : VKind) (m : Ping) : Bool :=
@@ -287,6 +353,132 @@ def runG (fixed : Bool) (P : Plugins) (pr : Prim) (cfg : Cfg) (srv : Srv) (evs :
   evs.foldl (fun s e => (stepG fixed P pr cfg s e).1) srv
 
 def run := runG workVerifierIsFixed
+
+/-! ### the ssh tunnel gateway: the only code that feeds the internal listener
+
+  pkg/ssh/gateway.go `NewGateway`, `handleConn`; pkg/ssh/server.go `TunnelServer.Run`; pkg/virtual/client.go.
+  `svr.sshTunnelListener` is handed to `ssh.NewGateway` only; a `TunnelServer` puts on it exactly the
+  connections its own virtual client (`pipeConnector.Connect`) opens - after `ssh.NewServerConn` succeeded. -/
+
+abbrev PubKey := Str
+
+/-- what an ssh client presents -/
+inductive SshAuth
+  | none                                     -- the "none" method only
+  | pubkey (k : PubKey) (proved : Bool)      -- offers `k`; `proved` = signs with the private key of `k`
+  deriving DecidableEq, Repr
+
+/-- `loadAuthorizedKeysFromFile`: `authorizedKeysMap[string(pubKey.Marshal())] = strings.TrimSpace(comment)`,
+    a later line for the same key overwrites an earlier one -/
+def akLookup (l : List (PubKey × Str)) (k : PubKey) : Option Str :=
+  l.foldl (fun acc e => if e.1 = k then some e.2 else acc) none
+
+/-- `sshConfig.PublicKeyCallback`.  `file` = what `loadAuthorizedKeysFromFile(cfg.AuthorizedKeysFile)` returns at
+    the moment of the handshake (the file is read again for every attempt); `none` = read or parse error
+    ("internal error").  Result `none` = error, `some user` = `Permissions{Extensions{"user": user}}` -/
+def pubkeyCallback (file : Option (List (PubKey × Str))) (k : PubKey) : Option Str :=
+  match file with
+  | none => none
+  | some l => akLookup l k
+
+/-- `ssh.NewServerConn(conn, sshConfig)`.  `akSet` = `cfg.AuthorizedKeysFile != ""` = `!sshConfig.NoClientAuth`.
+    `none` = the handshake fails and `TunnelServer.Run` returns; `some user` = accepted, `user` = the permission
+    extension "user" ("" when there are no permissions: with NoClientAuth the "none" method, open to every
+    client, succeeds). -/
+def sshHandshake (akSet : Bool) (file : Option (List (PubKey × Str))) : SshAuth → Option Str
+  | .none => if akSet then none else some []
+  | .pubkey k proved =>
+    if akSet then
+      match pubkeyCallback file k with
+      | some u => if proved then some u else none
+      | none => none
+    else some []
+
+/-- what `parseClientAndProxyConfigurer` extracts from the exec payload (`--proxy_name`, `--user`, `--token`) -/
+structure GwCmd where
+  name  : Str
+  user  : Str
+  token : Str
+  deriving DecidableEq, Repr
+
+/-- one ssh connection to the gateway -/
+structure Tunnel where
+  auth  : SshAuth
+  file  : Option (List (PubKey × Str))
+  cmd   : Option GwCmd      -- none: no forward request / command within 3 s, unsupported proxy type, bad flag, help
+  conn  : ConnId            -- control connection of the virtual client (a net.Pipe put on the internal listener)
+  wconn : ConnId            -- its pooled work connection
+  ts    : Int               -- time.Now().Unix() in the virtual client's token setter
+  genId : RunId             -- what util.RandID() returns for this login
+  deriving DecidableEq, Repr
+
+/-- `clientCfg.User = util.EmptyOr(sshConn.Permissions.Extensions["user"], clientCfg.User)` -/
+def gwUser (permUser : Str) (c : GwCmd) : Str := if permUser = [] then c.user else permUser
+
+/-- `pc.Complete(clientCfg.User)`: `Name = (prefix == "" ? "" : prefix + ".") + Name` -/
+def gwProxyName (user name : Str) : Str := if user = [] then name else user ++ Str.dot :: name
+
+/-- the Login of the virtual client: `Spec.AlwaysAuthPass = !s.sc.NoClientAuth`; key from the token setter with
+    `--token`; `PoolCount` 1 (ClientCommonConfig.Complete); no run id -/
+def gwLogin (pr : Prim) (akSet : Bool) (t : Tunnel) (c : GwCmd) : Login :=
+  { runId := [], ts := t.ts, key := pr.H c.token t.ts, aap := akSet, poolCount := 1, genId := t.genId }
+
+inductive GwOut
+  | authFail                              -- ssh handshake refused: nothing reaches frps
+  | closed                                -- handshake fine, tunnel closed again (command / login / proxy error)
+  | up (rid : RunId) (proxy : Str)        -- success banner written, tunnel stays
+  deriving DecidableEq, Repr
+
+/-- `Gateway.handleConn` → `TunnelServer.Run` as far as the tables of frps are concerned.  The virtual client's
+    work connection carries no key (its setter has no additional scopes).  A proxy that cannot be started
+    (`waitProxyStatusReady` error) closes the virtual client, i.e. ends the session. -/
+def gwTunnel (fixed : Bool) (P : Plugins) (pr : Prim) (cfg : Cfg) (akSet : Bool) (srv : Srv) (t : Tunnel) :
+    Srv × GwOut :=
+  match sshHandshake akSet t.file t.auth with
+  | none => (srv, .authFail)
+  | some pu =>
+    match t.cmd with
+    | none => (srv, .closed)
+    | some c =>
+      let r1 := handleFirstG fixed P pr cfg srv true t.conn (.login (gwLogin pr akSet t c))
+      match r1.2.reply with
+      | .loginOk rid =>
+        let name := gwProxyName (gwUser pu c) c.name
+        let r2 := handleNewProxy r1.1 t.conn name
+        match r2.2.reply with
+        | .proxyOk =>
+          ((handleFirstG fixed P pr cfg r2.1 true t.wconn (.work { runId := rid, ts := 0, key := [] })).1,
+           .up rid name)
+        | _ => ((sessionEnd r2.1 t.conn).1, .closed)
+      | _ => (r1.1, .closed)
+
+/-- what reaches frps from the network listeners (tcp, tls, websocket, kcp, quic): there is no `internal` to
+    choose - `HandleListener(l, false)` / `handleConnection(ctx, stream, false)` (source facts) -/
+inductive NetEv
+  | first (conn : ConnId) (m : First)
+  | ping (conn : ConnId) (m : Ping)
+  | newProxy (conn : ConnId) (name : Str)
+  | drop (conn : ConnId)
+  deriving DecidableEq, Repr
+
+def NetEv.toEv : NetEv → Ev
+  | .first c m => .first false c m
+  | .ping c m => .ping c m
+  | .newProxy c n => .newProxy c n
+  | .drop c => .drop c
+
+/-- everything that happens to a frps with the gateway enabled -/
+inductive SysEv
+  | net (e : NetEv)
+  | ssh (t : Tunnel)
+  deriving DecidableEq, Repr
+
+def sysStep (fixed : Bool) (P : Plugins) (pr : Prim) (cfg : Cfg) (akSet : Bool) (srv : Srv) : SysEv → Srv
+  | .net e => (stepG fixed P pr cfg srv e.toEv).1
+  | .ssh t => (gwTunnel fixed P pr cfg akSet srv t).1
+
+def sysRun (fixed : Bool) (P : Plugins) (pr : Prim) (cfg : Cfg) (akSet : Bool) (srv : Srv) (evs : List SysEv) : Srv :=
+  evs.foldl (sysStep fixed P pr cfg akSet) srv
 
 end AuthGate
 end Frp
